@@ -70,16 +70,18 @@ def run(rep):
         tf_ = crate.fns[tq]
         tw = f"{crate.relfile(tf_['file'])} fn {tf_['name']}"
         top = ogp.summaries[tq]
+        plt = E.flatten(plt)
         ptxt = E.tmpl_text(plt)
         rng = hole_after_seq(plt, 'push_constant_ranges : & [')
-        rep.check(rng is not None and 'push_constant_ranges : & [ #' in ptxt and '] , } )' in ptxt.split('push_constant_ranges : & [ #')[1][:40], 'C13.at-most-one', f'single-range:{tq}', tw,
+        import re as _re
+        rep.check(rng is not None and _re.search(r'push_constant_ranges : & \[ #\w+ \]', ptxt) is not None, 'C13.at-most-one', f'single-range:{tq}', tw,
                   'push_constant_ranges is not a single optional range', ok_detail='&[<optional range>]')
         rts = E.find_templates(rng, lambda t: 'wgpu :: PushConstantRange {' in E.tmpl_text(t)) if rng is not None else []
         rep.check(rng is not None and rng[0] == 'opt' and len(rts) == 1, 'C13.wiring', f'templates:{tq}', tw,
                   f'the range hole is {E.show(rng, maxdepth=4) if rng else None}; expected an Option holding one `wgpu::PushConstantRange {{..}}` template', ok_detail='one optional range template')
         if rng is None or rng[0] != 'opt' or len(rts) != 1:
             continue
-        rt = rts[0]
+        rt = E.flatten(rts[0])
         rf = crate.fns.get(rt[3])
         where = f"{crate.relfile(rf['file'])} fn {rf['name']} (template at {rt[1]})" if rf else tw
         # ---- range shape ---------------------------------------------------------------------------------------------------------
@@ -168,13 +170,25 @@ def run(rep):
         ok_map = len(gets) == 1 and gets[0][1][0] == 'new' and gets[0][1][1] in ('BTreeMap', 'HashMap') and gets[0][1][3] == () and gets[0][3] == [('unwrap', nameT)]
         rep.check(ok_map, 'C13.wiring', f'stage-map:{tq}', tw, 'the stage map consulted for the push constant is not the map computed by the stage walk, looked up under the name of the selected variable',
                   ok_detail='consults the walker\'s map under the variable\'s name')
-        dl = E.decision_list(arg) if arg is not None else []
-        fb = dl[-1][1] if dl and not dl[-1][0] else None
+        # the fallback: the value selected when the variable has no name
+        fb = None
+        if arg is not None:
+            leafs = []
+
+            def leaves(x):
+                if x[0] == 'alt':
+                    for _, v_ in x[1]:
+                        leaves(v_)
+                elif not any(x == y for y in leafs):
+                    leafs.append(x)
+            leaves(arg)
+            others = [x for x in leafs if not (gets and x == ('unwrap', gets[0]))]
+            fb = others[0] if len(others) == 1 else None
         ok_lookup = False
         if ok_map and fb is not None:
             getT = gets[0]
             want_arg = ('alt', [(('and', [('t', ('is_some', nameT)), ('t', ('is_some', getT))]), ('unwrap', getT)), (TRUE, fb)])
-            ok_lookup = dl == E.decision_list(want_arg)
+            ok_lookup = E.same_decision(arg, want_arg)
         rep.check(ok_lookup, 'C13.stages', 'stage-lookup', tw,
                   f'the stage set is {E.show(arg, maxdepth=8) if arg else None}; expected exactly `global_stages.get(name of the push-constant variable)` with fallback `entry_stages` '
                   f'(when the variable is used the set must be the map entry itself, no stage may be added)', ok_detail='stages = map.get(variable name) else entry stages')
